@@ -139,6 +139,7 @@ fn main() {
         "mem" => mem::run(&a),
         "chain" => chain::run(&a),
         "sys" => sys::run(&a),
+        "floodchild" => wire::flood_child(&a),
         f => {
             eprintln!("unknown family {f}");
             std::process::exit(2);
